@@ -445,8 +445,8 @@ func runChild(mode string) (int, string) {
 var gateLevels = []int{-128, -2, -1, 0, 1, 3, 5, 6, 7, 8, 127}
 
 func runC04(c *Ctx) {
-	c.Res.Rule = "gate rows: (logger level, global level, optional BasicSampler, DisableSampling) x calls through every entry point (all 256 levels via WithLevel, the named level methods, Panic under recover, with and without Discard); exhaustive Go-side table 256x256x256; every reflected *Event method on a nil event (2 argument variants); Fatal in a child process; Level String/ParseLevel on all 256 levels and hostile strings; MarshalText/UnmarshalText/ParseLevel on all 256 levels under replaced LevelFieldMarshalFunc namings and reassigned Level*Value variables; the gate and inertness for 16 entry points while another goroutine alternates the global level between two values (4 logger levels x 12 ordered pairs), judged on the events whose fate is the same under both values. Non-trivial gate row = has both written and filtered calls"
-	header := "From Coq Require Import String.\nFrom Verif Require Import Base.Prelude Misc.Level Lts.Sampler Misc.Gate Harness.C04H.\nLocal Open Scope string_scope."
+	c.Res.Rule = "gate rows: (logger level, global level, optional BasicSampler, DisableSampling) x calls through every entry point (all 256 levels via WithLevel, the named level methods, Panic under recover, with and without Discard); exhaustive Go-side table 256x256x256; every reflected *Event method on a nil event (2 argument variants); Fatal in a child process; Level String/ParseLevel on all 256 levels and hostile strings; MarshalText/UnmarshalText/ParseLevel on all 256 levels under 22 namings of the nine named levels (upper/mixed case, renamed, rotated and swapped default names, numbers as names, empty texts, blanks, non-ASCII; also namings that give several levels one text), each installed as a replaced LevelFieldMarshalFunc and through the Level*Value variables: the level must read back when the 256 texts are pairwise different up to case, otherwise the text must read back as a level with that text; ParseLevel under each ASCII naming on its names, their case variants, the default names and numbers against Misc/LevelNames.v; the gate and inertness for 16 entry points while another goroutine alternates the global level between two values (4 logger levels x 12 ordered pairs, 4 emitting goroutines, runs prolonged until the emitters have seen the level change), judged on the events whose fate is the same under both values. Non-trivial gate row = has both written and filtered calls"
+	header := "From Coq Require Import String.\nFrom Verif Require Import Base.Prelude Misc.Level Misc.LevelNames Lts.Sampler Misc.Gate Harness.C04H.\nLocal Open Scope string_scope."
 	c.OpenShards(header, "c04_case * c04_obs", "mismatches c04_run c04_eqb", 200)
 
 	// (a) gate rows
